@@ -87,18 +87,23 @@ def prologue_check(d, tier, coq, build):
             pr = [x for x in p if x.startswith("pr=")]
             if not pr or len(p) < 9 or p[3].startswith("-") and False:
                 continue
-            rf, r0, mp, kind, cfg, ok, ismf, empty, obs = pr[0][3:].split(":")
+            rf, r0, mp, kind, cfg, ok, ismf, empty, obs, wantp, cfgarch, sel = pr[0][3:].split(":")
             if any(t == "CX" for t in p[7].split(",")[:1]) :
                 continue  # context already ended: the prologue may stop early
             key = (pr[0], p[4])
-            if key in seen or (kind == "n" and rf == "0" and len(goals) > want // 4):
+            if key in seen or (kind == "n" and rf == "0" and len(goals) > want // 4) or (kind != "i" and len(goals) >= 2 * want):
                 continue
             seen.add(key)
             pt = {"n": "PTNone", "l": "PTList", "o": "PTOther"}.get(kind) or "(PTImage %s %s)" % (cfg, _b(ok == "1"))
             exp = "[" + "; ".join([] if obs == "-" else obs.split("+")) + "]"
             goals.append((i, "prologue_fetches %s %s %s %s %s = %s" % (_b(rf == "1"), r0, mp, pt, _nats(p[4]), exp)))
+            if kind == "i" and sel != "?" and cfgarch != "-" or (kind == "i" and sel == "-" and ok == "0"):
+                wa, wv, wf = wantp.split(".")
+                wp = "(mkPlat %s 1 0 %s %s)" % (wa, wv, "[1]" if wf == "1" else "[]")
+                cp = "None" if cfgarch == "-" else "(Some (mkPlat %s 1 0 0 []))" % cfgarch
+                goals.append((i, "select_target %s (PVImage %s %s) %s = %s" % (mp, _b(ok == "1"), cp, wp, "None" if sel == "-" else "Some " + sel)))
             goals.append((i, "cache_after_resolve %s %s %s %s = %s" % (_b(rf == "1"), _b(ismf == "1"), _b(empty == "1"), r0, _nats(p[4]))))
-            if len(goals) >= 2 * want:
+            if len(goals) >= 4 * want:
                 break
     vdir = os.path.join(build, "vm")
     os.makedirs(vdir, exist_ok=True)
